@@ -18,4 +18,8 @@ mk c03-incoming-flush    C03 $S/store.go 's|\t\t\t\tif currentRID != 0 \&\& !pre
 mk c03-limit-not-reduced C03 $S/store.go 's#\t\t\tlimit = int(math.Max(float64(limit-len(relatedEntities.Relations)), 0))#\t\t\tlimit = int(math.Max(float64(limit), 0))#' 'start-point-queried-with-what-the-earlier-ones-left-over'
 mk c03-skipped-dropped   C03 $S/store.go 's#\t\t\trelatedFroms = append(relatedFroms, startPoint)#\t\t\t_ = startPoint#' 'every-start-point-not-queried-is-carried-over'
 mk c03-limit-off-by-one  C03 $S/store.go 's#\t\tif (limit > 0) || unlimited {#\t\tif (limit >= 0) || unlimited {#' 'start-point-queried-with-what'
+W=internal/web
+mk c16-route-open        C16 $W/datasethandler.go 's#\te.DELETE("/datasets", handler.deleteAllDatasets, mw.authorizer(log, datahubWrite))#\te.DELETE("/datasets", handler.deleteAllDatasets)#' 'route-carries-the-authorizer@DELETE#2'
+mk c16-acl-result-ignored C16 $W/middlewares/authorization.go 's#\t\t\t\t\tif err != nil {$#\t\t\t\t\tif err != nil \&\& core == nil {#' 'request-reaches-the-handler-only-after'
+mk c16-acl-wrong-path    C16 $W/middlewares/authorization.go 's#err = doAclCheck(c.Request().Method, c.Request().URL.Path, token, core)#err = doAclCheck(c.Request().Method, c.Path(), token, core)#' 'acl-decision-taken-for-the-requests-own-method-and-path'
 git -C /repo worktree remove --force "$wt"
